@@ -3707,25 +3707,25 @@ def plan(tier, seed):
         d.update(kw)
         units.append(d)
     # every unit draws its values from ctx.rng (seeded from VERIF_SEED and the unit index): shards are independent samples
-    rep = 4 if quick else 12
+    rep = 4 if quick else 60
     for k in ('integer', 'int', 'bits', 'oid', 'utf8', 'ascii_strings', 'time', 'seqofint', 'sm2sig', 'sm2ct', 'sm2keys', 'sm2consumers',
               'names', 'exts'):
         for i in range(rep):
             add(k, 3, shard=i)
     for k in ('length', 'boolean', 'misc', 'algid'):
-        for i in range(1 if quick else 3):
+        for i in range(1 if quick else 12):
             add(k, 3, shard=i)
     for g in sorted(EXT_GROUPS):
         for i in range(rep):
             add('ext', 2, group=g, shard=i)
     for w in ('sign_master_key', 'sign_master_public_key', 'sign_key', 'enc_master_key', 'enc_master_public_key', 'enc_key', 'signature',
               'ciphertext'):
-        for i in range(1 if quick else 3):
+        for i in range(1 if quick else 12):
             add('sm9', 3, what=w, shard=i)
     for w in sorted(SM9_INFO):
-        for i in range(1 if quick else 3):
+        for i in range(1 if quick else 6):
             add('sm9enc', 6, what=w, shard=i)
-    for i in range(2 if quick else 8):
+    for i in range(2 if quick else 24):
         add('pkcs8enc', 8, shard=i)
     nb64 = 8 if quick else 16
     for i in range(nb64):
@@ -3734,7 +3734,7 @@ def plan(tier, seed):
     for i in range(npem):
         add('pemrw', 3 if quick else 8, lo=i, step=npem)
     for k in ('b64bad', 'hex', 'pembad'):
-        for i in range(1 if quick else 3):
+        for i in range(1 if quick else 12):
             add(k, 2, shard=i)
     add('hexodd', 1)
     for rd in sorted(PEM_CAP_READERS):
